@@ -4,6 +4,7 @@ package main
 import (
 	"bytes"
 	"fmt"
+	"strings"
 	"sync"
 
 	"github.com/gobwas/ws"
@@ -100,6 +101,22 @@ func invalidations(side ref.Side, ext, frag bool) []bad {
 	return out
 }
 
+// withRsv: on an extended connection reserved bits are legal, so every offending frame of the alphabet also comes
+// carrying some - the frame an extension would have looked at still breaks its other rule.
+func withRsv(inv []bad, ext bool) []bad {
+	if !ext {
+		return inv
+	}
+	n := len(inv)
+	for i := 0; i < n; i++ {
+		b := inv[i]
+		b.h.Rsv = []byte{4, 2, 1, 7, 5, 6, 3}[i%7]
+		b.name += fmt.Sprintf("+rsv%d", b.h.Rsv)
+		inv = append(inv, b)
+	}
+	return inv
+}
+
 var runEntries = []string{"reader", "reader-ctlhandler", "readmessage", "readdata", "reader-discard", "readtext", "readbinary"}
 
 func isProtocolErr(err error) bool {
@@ -123,7 +140,7 @@ func runOne(c *mon.C, shapes []gen.Shape, side ref.Side, ext bool, b bad, withTa
 	// encode the offending frame
 	fh := b.h
 	fh.Masked = side == ref.SideServer
-	if b.name == "wrong-mask" || b.name == "wrong-mask-ping" {
+	if strings.HasPrefix(b.name, "wrong-mask") {
 		fh.Masked = !fh.Masked
 	}
 	if side == ref.SideNone {
@@ -310,6 +327,7 @@ func subEnum() mon.Sub {
 				}
 				break
 			}
+			inv = withRsv(inv, ext)
 			for _, b := range inv {
 				for _, tl := range []bool{false, true} {
 					if !runOne(c, shapes, side, ext, b, tl, 0, false) {
@@ -372,7 +390,7 @@ func subRandom() mon.Sub {
 					frag = !s.Fin
 				}
 			}
-			inv := invalidations(side, ext, frag)
+			inv := withRsv(invalidations(side, ext, frag), ext)
 			b := inv[c.Rng.Intn(len(inv))]
 			if !runOne(c, shapes, side, ext, b, c.Rng.Intn(2) == 0, 0, false) {
 				return
@@ -386,7 +404,7 @@ func main() {
 	mon.Main(&mon.Spec{
 		Property: "C05",
 		Level:    "exploration",
-		Rule: "cases: every valid prefix (complete or ending inside a fragmented message) up to depth 2 (quick) / 4 (thorough) x side{server,client,zero} x extended x every offending frame of the alphabet (10 reserved opcodes; ping/pong/close with length 126 and 65536; non-final control; RSV 1..7 without extension; wrong mask bit; new data frame while fragmented; stray continuation) x tail{none, one valid message} " +
+		Rule: "cases: every valid prefix (complete or ending inside a fragmented message) up to depth 2 (quick) / 4 (thorough) x side{server,client,zero} x extended x every offending frame of the alphabet (10 reserved opcodes; ping/pong/close with length 126 and 65536; non-final control; RSV 1..7 without extension; on an extended connection every offending frame also with reserved bits set; wrong mask bit; new data frame while fragmented; stray continuation) x tail{none, one valid message} " +
 			"x entries {Reader, Reader+ControlFrameHandler, ReadMessage, ReadData, Reader skipping every message with Discard, Read{Client,Server}Text, Read{Client,Server}Binary} x 3 chunk plans; plus MaxFrameSize in {L-1,1} for announced L in {1,125,126,65536,2^40} with only the header supplied; plus random prefixes of up to 30 frames. " +
 			"Oracle: events == valid-prefix run, error is ws.ProtocolError / ErrFrameTooLarge, delivered partial data is a prefix of the open message, transport not read past the refused header. distinct = (prefix shape, offending kind, entry, plan kind, side, extended, tail).",
 		Assumptions: []string{"which of several broken rules is named is not constrained here (C03 does)", "ref.BrokenRules is used to confirm that the generated frame really is offending in the state built by the prefix"},
